@@ -17,6 +17,7 @@ package gnet
 import (
 	"hash/crc32"
 	"net"
+	"sync/atomic"
 
 	"github.com/panjf2000/gnet/v2/pkg/bs"
 )
@@ -104,8 +105,8 @@ func (lb *baseLoadBalancer) len() int {
 
 // next returns the eligible event-loop based on Round-Robin algorithm.
 func (lb *roundRobinLoadBalancer) next(_ net.Addr) (el *eventloop) {
-	el = lb.eventLoops[lb.nextIndex%uint64(lb.size)]
-	lb.nextIndex++
+	idx := atomic.AddUint64(&lb.nextIndex, 1) - 1 // next may be called by the acceptor and by Engine.Register concurrently
+	el = lb.eventLoops[idx%uint64(lb.size)]
 	return
 }
 
